@@ -64,6 +64,17 @@ def main():
                 env["VERIF_REPO"] = scratch
             out, viol, oracle = run_check(prop, tier, env)
             status = "CAUGHT" if out.returncode == 1 and viol else ("MISSED" if out.returncode == 0 else f"HARNESS rc={out.returncode}")
+            if meta.get("expect") == "conforms" and status == "MISSED":
+                # a behaviour-preserving change must leave EVERY check silent, not only its own property's
+                for other in ("C06", "C12", "C19", "C20"):
+                    if other == prop:
+                        continue
+                    o2, v2, or2 = run_check(other, tier, env)
+                    if o2.returncode != 0:
+                        out, viol, oracle = o2, v2, or2
+                        prop = other
+                        status = "CAUGHT" if o2.returncode == 1 and v2 else f"HARNESS rc={o2.returncode}"
+                        break
             if meta.get("expect") == "conforms":
                 status = {"MISSED": "SILENT-OK", "CAUGHT": "FALSE-ALARM"}.get(status, status)
             rep = ""
